@@ -43,6 +43,9 @@ def search_refs(job):
              {"tables": [["A", "B"], ["C"]], "hdr": [0, 0], "then": [["rename_table", 1, 0, "A"]]},
              {"tables": [["A", "B"], ["B", "C"], ["C"]], "hdr": [0, 0], "then": [["rename_table", 1, 1, "A"]]},
              {"tables": [["A"], ["B"]], "hdr": [0, 0], "then": [["rename_sheet", 1, "S9"]]}]
+    shared = {"col": ["fruit", "beta", "gamma", "fruit", "delta"], "row": ["veg", "r2", "r3", "veg", "r5"]}
+    cases += [{"tables": [["A", "B"]], "hdr": list(h), "labels": shared} for h in ((1, 0), (0, 1), (2, 1), (1, 2))]
+    cases += [{"tables": [["A"]], "hdr": [1, 1], "labels": {"col": ["x", "dup", "dup", "dup"], "row": ["r1", "r2", "r3", "r4"]}}]
     for c in cases:
         r = R.run_case(c)
         if r and r.get("detail"):
